@@ -146,7 +146,11 @@ func init() {
 		g := v.Gen(w, c, MixVault)
 		g.MaxTx = 8
 		n := c.N(120, 400)
-		g.Free(n/2, g.StdDt)
+		if c.Job.Index%3 == 1 && !w.Dead {
+			NewChaos(c, w, g).Run(n/2, g.StdDt)
+		} else {
+			g.Free(n/2, g.StdDt)
+		}
 		// crash: liquidations with a shortfall; then lenders try to withdraw more than the cash
 		w.Prices["ATOM"] = w.Prices["ATOM"].Mul(chain.Dec("0.45"))
 		g.Free(10, nil)
